@@ -76,7 +76,8 @@ def parseWorld (t : List String) : World :=
            sendWin := nat t "sw", sendCnt := nat t "sc", sendAck := nat t "sa", acks := nat t "ak",
            recvConfs := nat t "rc", recvWin := nat t "rw" },
     registered := flag t "reg", sapAlive := flag t "alive", sapOthers := flag t "oth", terminated := flag t "term",
-    sdAlive := flag t "sd", resolved := flag t "res", viaSap := false }
+    sdAlive := flag t "sd", resolved := flag t "res", viaSap := false,
+    closeClearsRecv := kv t "ccr" != "0" }
 
 def causeOf : String → Option Cause
   | "remote-disc" => some .remoteDisc | "timeout" | "broken-link" | "none" | "malformed" => some .exchangeNone
